@@ -192,8 +192,8 @@ fn main() {
         if want("C02") && val_ok && !ok { report("C02", format!("from_str::<Value>({}) accepted malformed text", show(d))); }
         if want("C08") && lazy.is_ok() { if let Ok(rn) = sonic_rs::from_str::<sonic_rs::RawNumber>(txt) { if number(rn.as_str().as_bytes(), 0) != Some(rn.as_str().len()) { report("C08", format!("RawNumber from {} holds {:?}: not a JSON number", show(d), rn.as_str())); } } }
         // C20: errors locate themselves
-        if want("C20") { if let Err((off, l, c)) = &lazy { if *off > d.len() || (*l != 0 && (*l, *c) != line_col(d, *off)) { report("C20", format!("error for {} reports offset {} line {} column {}, expected line/column {:?}", show(d), off, l, c, line_col(d, *off))); } } }
-        if want("C20") { if let Some((off, l, c)) = verr { if off > d.len() { report("C20", format!("from_str::<Value>({}) error reports offset {} beyond the input length {}", show(d), off, d.len())); } if l != 0 && (l, c) != line_col(d, off) { report("C20", format!("from_str::<Value>({}) error reports offset {} line {} column {}, expected line/column {:?}", show(d), off, l, c, line_col(d, off))); } } }
+        if want("C20") { if let Err((off, l, c)) = &lazy { if *off > d.len() || (*l, *c) != line_col(d, *off) { report("C20", format!("error for {} reports offset {} line {} column {}, expected line/column {:?}", show(d), off, l, c, line_col(d, *off))); } } }
+        if want("C20") { if let Some((off, l, c)) = verr { if off > d.len() { report("C20", format!("from_str::<Value>({}) error reports offset {} beyond the input length {}", show(d), off, d.len())); } if (l, c) != line_col(d, off) { report("C20", format!("from_str::<Value>({}) error reports offset {} line {} column {}, expected line/column {:?}", show(d), off, l, c, line_col(d, off))); } } }
         if want("C02") && val_ok != ok && !ok { report("C02", format!("from_str::<Value>({}) accepted malformed text", show(d))); }
         // C03: the embedded (copy-out) parse of a value equals the whole-input parse
         if want("C03") && ok {
@@ -390,6 +390,24 @@ fn main() {
         let good = "[\"é\",{\"ключ\":\"值\"}] true".as_bytes();
         let st: Vec<bool> = sonic_rs::Deserializer::from_slice(good).into_stream::<sonic_rs::Value>().take(2).map(|x| x.is_ok()).collect();
         if st != vec![true, true] { report(pid, format!("stream over valid UTF-8 {} gives {:?}", show(good), st)); }
+    }
+    // C20 (found F23): typed targets whose errors are made by derived code after the deserializer returned
+    if want("C20") {
+        #[derive(serde::Deserialize, Debug)] #[serde(untagged)] #[allow(dead_code)] enum Un { I(i64), S(String) }
+        #[derive(serde::Deserialize, Debug)] #[serde(tag = "t")] #[allow(dead_code)] enum Tg { A { x: i32 }, B }
+        #[derive(serde::Deserialize, Debug)] #[allow(dead_code)] enum En { U, N(i32) }
+        fn pos<T: serde::de::DeserializeOwned + std::fmt::Debug>(txt: &str, ty: &str) {
+            if let Err(e) = sonic_rs::from_str::<T>(txt) {
+                let (off, l, c) = (e.offset(), e.line(), e.column());
+                if off > txt.len() || (l, c) != line_col(txt.as_bytes(), off) { report("C20", format!("from_str::<{ty}>({:?}) error `{}` reports offset {} line {} column {}, expected line/column {:?}", txt, e.to_string().lines().next().unwrap_or(""), off, l, c, line_col(txt.as_bytes(), off))); }
+                let _ = format!("{e} {e:?}");
+            }
+            let mut de = sonic_rs::Deserializer::from_str(txt);
+            if let Err(e) = de.deserialize::<T>() { if e.line() == 0 { report("C20", format!("Deserializer::deserialize::<{ty}>({:?}) error `{}` has no position", txt, e.to_string().lines().next().unwrap_or(""))); } }
+        }
+        for txt in ["{}", "[1]\n", "\n\n{\"t\":\"C\"}", "{\"t\":1}", "[\"A\"]", "\"N\"", "{\"U\":1}", "{\"N\":\"x\"}", "1.5", "null", "{\"x\":1}", "\n [ ]", "{}{"] {
+            pos::<Un>(txt, "untagged enum"); pos::<Tg>(txt, "internally tagged enum"); pos::<En>(txt, "enum En{U,N(i32)}"); pos::<Vec<Un>>(txt, "Vec<untagged enum>");
+        }
     }
     // C03 (lossy configuration): a stream of Values over input with invalid UTF-8 inside string literals — every
     // document after the first must still be read from its own first byte
